@@ -1,4 +1,5 @@
 pub mod c09;
+pub mod c09b;
 
 use crate::runner::Check;
 
